@@ -74,6 +74,45 @@ pub const BAD_TEMPLATES: &[&str] = &[
     "{{ semver_obj.docker }}", "{{ pep440_obj.base_part }}{{ pre_release.number }}", "{{ custom.a.b.c }}", "{{ bumped_branch | upper }}", "{% raw %}{{x}}{% endraw %}",
     "none", "null", "   ", "\n", "{{ dev }}", "{{ current_timestamp }}", "{{ semver }}\n{{ pep440 }}",
 ];
+/// `{{ f(k=v, ...) }}` for every custom function with its own parameters, each present with
+/// probability 0.6; values mostly of the parameter's type (sizes, signs, boundary numbers,
+/// variables), now and then of another type, plus an unknown parameter — one call deep (F18)
+pub fn fn_call_template() -> BoxedStrategy<String> {
+    const NUMS: &[&str] = &["0", "1", "7", "20", "255", "65535", "65536", "4294967295", "4294967296", "99999999999", "9223372036854775807", "-1", "-9223372036854775808", "1.5", "1e9", "distance", "major", "bumped_timestamp"];
+    const BOOLS: &[&str] = &["true", "false", "dirty"];
+    const TEXTS: &[&str] = &["\"x\"", "\"éééé\"", "\"\"", "\"a.00b-c\"", "\"%Y\"", "\"%Q\"", "\"dotted\"", "\"uint\"", "\"semver_str\"", "\".\"", "\"é\"", "\"+\"", "bumped_branch", "bumped_commit_hash", "custom", "pre_release", "nope"];
+    // (function, [(parameter, kind)]): kind 0 number, 1 bool, 2 text
+    const FUNS: &[(&str, &[(&str, u8)])] = &[
+        ("hash", &[("value", 2), ("length", 0)]),
+        ("hash_int", &[("value", 2), ("length", 0), ("allow_leading_zero", 1)]),
+        ("prefix", &[("value", 2), ("length", 0)]),
+        ("prefix_if", &[("value", 2), ("prefix", 2)]),
+        ("sanitize", &[("value", 2), ("preset", 2), ("separator", 2), ("lowercase", 1), ("keep_zeros", 1), ("max_length", 0)]),
+        ("format_timestamp", &[("value", 0), ("format", 2)]),
+    ];
+    (0usize..FUNS.len(), proptest::collection::vec((prop::bool::weighted(0.6), 0u8..10, any::<prop::sample::Index>()), 6), prop::bool::weighted(0.1))
+        .prop_map(|(fi, picks, unknown)| {
+            let (f, params) = FUNS[fi];
+            let mut args: Vec<String> = Vec::new();
+            for ((name, kind), (present, off_type, idx)) in params.iter().zip(picks.iter()) {
+                if !*present && !(*name == "value" && *off_type < 8) {
+                    continue;
+                }
+                let pool: &[&str] = match (if *off_type == 0 { (kind + 1) % 3 } else { *kind }) as u8 {
+                    0 => NUMS,
+                    1 => BOOLS,
+                    _ => TEXTS,
+                };
+                args.push(format!("{name}={}", pool[idx.index(pool.len())]));
+            }
+            if unknown {
+                args.push("nope=1".into());
+            }
+            format!("{{{{ {f}({}) }}}}", args.join(", "))
+        })
+        .boxed()
+}
+
 pub const BAD_NUMS: &[&str] = &["-1", "4294967296", "18446744073709551616", "99999999999999999999999", "1e3", "0x10", " 5", "5 ", "+5", "", "abc", "1.5", "٣", "{{ major }}", "{{ distance }}", "{{ 1+1 }}", "{{", "none", "null", "-9223372036854775808", "9223372036854775807"];
 pub const BAD_RON: &[&str] = &[
     
@@ -95,7 +134,7 @@ pub fn value_for(kind: Kind) -> BoxedStrategy<Option<String>> {
     let s = |v: BoxedStrategy<String>| v.prop_map(Some).boxed();
     match kind {
         Kind::Bool => prop_oneof![8 => Just(None), 1 => Just(Some("true".to_string())), 1 => Just(Some("x".to_string()))].boxed(),
-        Kind::Num => s(prop_oneof![4 => num::u32_biased().prop_map(|n| n.to_string()), 2 => num::u64_biased().prop_map(|n| n.to_string()), 3 => pick(BAD_NUMS).prop_map(String::from), 1 => pick(BAD_TEMPLATES).prop_map(String::from)].boxed()),
+        Kind::Num => s(prop_oneof![4 => num::u32_biased().prop_map(|n| n.to_string()), 2 => num::u64_biased().prop_map(|n| n.to_string()), 3 => pick(BAD_NUMS).prop_map(String::from), 1 => pick(BAD_TEMPLATES).prop_map(String::from), 1 => fn_call_template()].boxed()),
         Kind::OptNum => prop_oneof![2 => Just(None), 3 => num::u32_biased().prop_map(|n| Some(n.to_string())), 2 => pick(BAD_NUMS).prop_map(|s| Some(s.to_string())), 1 => pick(BAD_TEMPLATES).prop_map(|s| Some(s.to_string()))].boxed(),
         Kind::Text => s(prop_oneof![3 => text::nasty(), 2 => super::flags::semver_tag(), 1 => super::flags::pep440_tag(), 1 => zervgen::hash_text(), 1 => pick(&["1.0.0-post.post.1.post", "1.0.0-99999999999999999999", "1.0.poſt1", "v", "", "1.0.0-dev.dev.dev", "18446744073709551615.0.0", "aééééééé"]).prop_map(String::from)].boxed()),
         Kind::Json => s(prop_oneof![3 => zervgen::custom_json().prop_map(|j| if j.is_empty() { "{}".into() } else { j }), 2 => pick(&["", "{", "[]", "null", "1", "\"x\"", "{\"a\":{\"b\":[1,{\"c\":null}]}}", "{\"a\":1e999}", "{\"é\":\"ü\"}", "{\"a\":\"\\ud800\"}"]).prop_map(String::from)].boxed()),
@@ -111,7 +150,7 @@ pub fn value_for(kind: Kind) -> BoxedStrategy<Option<String>> {
             s(prop_oneof![6 => super::pick_vec(items), 1 => text::tame()].boxed())
         }
         Kind::SchemaRon => s(prop_oneof![3 => zervgen::valid_schema_p().prop_map(|s| s.to_ron()), 2 => pick(BAD_RON).prop_map(String::from)].boxed()),
-        Kind::Template => s(prop_oneof![2 => pick(BAD_TEMPLATES).prop_map(String::from), 1 => pick(&["{{ semver }}", "v{{ major }}.{{ minor }}", "{{ pep440 }}+{{ bumped_commit_hash_short }}", "{{ hash_int(value=bumped_branch, length=5) }}"]).prop_map(String::from), 1 => text::nasty()].boxed()),
+        Kind::Template => s(prop_oneof![2 => pick(BAD_TEMPLATES).prop_map(String::from), 2 => fn_call_template(), 1 => pick(&["{{ semver }}", "v{{ major }}.{{ minor }}", "{{ pep440 }}+{{ bumped_commit_hash_short }}", "{{ hash_int(value=bumped_branch, length=5) }}"]).prop_map(String::from), 1 => text::nasty()].boxed()),
         Kind::Rules => s(prop_oneof![1 => pick(BAD_RULES).prop_map(String::from), 1 => text::tame()].boxed()),
         Kind::Dir => s(pick(&["/nonexistent", "/", "/tmp", ".", "", "/etc/passwd", "relative/path"]).prop_map(String::from).boxed()),
     }
